@@ -1,6 +1,8 @@
 (* C20 Proposal integrity, node-local half. *)
 From Coq Require Import List NArith.
 From RaftV Require Import Base Types Quorum Progress Tracker Storage Log Raft RawNode QuorumProofs RaftMono RaftRouting NodeProps PreVoteProofs LocalProofs FlowProofs LogProofs ConfProofs.
+From RaftV Require AppendRefine.
+From RaftV Require Import ProposalProofs ProposalEx.
 Import ListNotations.
 Open Scope N_scope.
 
@@ -29,3 +31,61 @@ Theorem C20_candidate_drops : forall st r m r' e,
 Proof. exact candidate_drops_proposals. Qed.
 Print Assumptions C20_candidate_drops.
 
+
+
+(* ---- what a proposal does to the logical log (Proofs/ProposalProofs.v) ---- *)
+
+(* the gate keeps every entry of a proposal in its place; the only change it may make is to replace
+   a configuration change by an empty normal entry; it never touches the log *)
+Theorem C20_gate_shape : forall es r li i r' es',
+  prop_gate r li i es = (r', es') -> same_log r r' /\ r_term r' = r_term r /\ Forall2 gated es es'.
+Proof. exact prop_gate_shape. Qed.
+Print Assumptions C20_gate_shape.
+
+(* a proposal at a leader: reported as dropped and the log untouched, or accepted and the logical
+   log (stable storage followed by the unstable tail) extended at its end by exactly the gated
+   entries of the proposal, in order, stamped with the leader's term and the next indexes
+   (C20_stamp_preserves: type and payload bit for bit) *)
+Theorem C20_leader_propose : forall st r m r' e,
+  m_type m = MsgProp -> AppendRefine.l_wf st (r_log r) ->
+  step_leader st r m = Ok (r', e) ->
+  (e = ErrProposalDropped /\ same_log r r') \/
+  (e = ENone /\ AppendRefine.l_wf st (r_log r') /\
+   exists es', Forall2 gated (m_entries m) es' /\
+     AppendRefine.lview st (r_log r') =
+       extended (AppendRefine.lview st (r_log r)) (stamp (r_term r) (last_index st r + 1) es')).
+Proof. exact leader_propose. Qed.
+Print Assumptions C20_leader_propose.
+
+(* Propose / ProposeConfChange through Step in any role: nothing is invented and nothing is lost;
+   the log is left exactly as it was (dropped, or forwarded by a follower), or extended as above *)
+Theorem C20_step_propose : forall st r m r' e,
+  m_type m = MsgProp -> m_term m = 0 -> AppendRefine.l_wf st (r_log r) ->
+  step st r m = Ok (r', e) ->
+  same_log r r' \/
+  (r_state r = StateLeader /\ e = ENone /\ AppendRefine.l_wf st (r_log r') /\
+   exists es', Forall2 gated (m_entries m) es' /\
+     AppendRefine.lview st (r_log r') =
+       extended (AppendRefine.lview st (r_log r)) (stamp (r_term r) (last_index st r + 1) es')).
+Proof. exact step_propose. Qed.
+Print Assumptions C20_step_propose.
+
+(* the one entry raft adds on its own per leadership: an empty normal entry of the new term *)
+Theorem C20_one_empty_entry_per_leadership : forall st r r',
+  AppendRefine.l_wf st (r_log r) -> become_leader st r = Ok r' ->
+  AppendRefine.l_wf st (r_log r') /\
+  AppendRefine.lview st (r_log r') =
+    extended (AppendRefine.lview st (r_log r))
+             [mkEntry (r_term r) (last_index st r + 1) EntryNormal false [] false false].
+Proof. exact become_leader_view. Qed.
+Print Assumptions C20_one_empty_entry_per_leadership.
+
+(* the hypotheses are satisfiable: a concrete leader and a proposal with payload [7] *)
+Theorem C20_proposal_nonvacuous :
+  exists st r m r' e,
+    m_type m = MsgProp /\ m_term m = 0 /\ AppendRefine.l_wf st (r_log r) /\ r_state r = StateLeader /\
+    step st r m = Ok (r', e) /\ e = ENone /\
+    AppendRefine.lview st (r_log r') =
+      extended (AppendRefine.lview st (r_log r)) [mkEntry 1 3 EntryNormal false [7] true false].
+Proof. exact proposal_nonvacuous. Qed.
+Print Assumptions C20_proposal_nonvacuous.
